@@ -13,7 +13,9 @@ Inductive c02_case :=
 | CChain (chain : N) (taker maker phash : bytes) (obs_policy_csv : Z) (obs_created_same : bool) (obs_script : bytes)
 (* btcd engine verdicts: the witness stacks (lists of item tags, first item first)
    that were accepted among ALL stacks of at most [maxlen] tagged items *)
-| CEngine (chain flagset hmode keymode : N) (sq txver : Z) (maxlen : nat) (obs_accepted : list (list N)).
+| CEngine (chain flagset hmode keymode : N) (sq txver : Z) (maxlen : nat) (obs_accepted : list (list N))
+(* the same for the script GetOpeningTxScript builds with an arbitrary uint32 csv *)
+| CEngineCsv (csv : Z) (flagset : N) (sq txver : Z) (maxlen : nat) (obs_accepted : list (list N)).
 
 Definition gen_script_of (chain : N) : bytes -> bytes -> bytes -> list op :=
   match chain with
@@ -104,6 +106,10 @@ Definition model_accept (chain flagset hmode keymode : N) (sq txver : Z) (s : li
   eval_witness (tag_checksig (nullfail_of flagset) keymode) tag_sha256 (flags_of flagset) txver sq
     (gen_script_of chain (key_taker keymode) key_maker (tag_hash hmode)) (map tag_item s).
 
+Definition model_accept_csv (csv : Z) (flagset : N) (sq txver : Z) (s : list N) : bool :=
+  eval_witness (tag_checksig (nullfail_of flagset) 0) tag_sha256 (flags_of flagset) txver sq
+    (opening_ops (key_taker 0) key_maker (tag_hash 0) (int_push csv)) (map tag_item s).
+
 (* ---------- model == observed ---------- *)
 Definition c02_check (c : c02_case) : bool :=
   match c with
@@ -116,6 +122,9 @@ Definition c02_check (c : c02_case) : bool :=
   | CEngine chain fs hm km sq ver maxlen obs =>
       forallb (fun s => Nat.leb (length s) maxlen) obs &&
       forallb (fun s => Bool.eqb (model_accept chain fs hm km sq ver s) (stack_mem s obs)) (all_stacks maxlen)
+  | CEngineCsv csv fs sq ver maxlen obs =>
+      forallb (fun s => Nat.leb (length s) maxlen) obs &&
+      forallb (fun s => Bool.eqb (model_accept_csv csv fs sq ver s) (stack_mem s obs)) (all_stacks maxlen)
   end.
 
 (* ---------- the property's own statement on the observed data ---------- *)
@@ -132,7 +141,7 @@ Definition not_maker_sig (flagset keymode t : N) : bool :=
 Definition commits_csv (csv sq txver : Z) : bool :=
   (2 <=? txver mod 4294967296) && negb (Z.testbit sq 31) && negb (Z.testbit sq 22) && (csv <=? sq mod 65536).
 
-Definition spec_accept (chain flagset hmode keymode : N) (sq txver : Z) (s : list N) : bool :=
+Definition spec_accept_csv (csv : Z) (flagset hmode keymode : N) (sq txver : Z) (s : list N) : bool :=
   match s with
   | [st; pre; y; x] =>          (* (a) taker signature + 32-byte preimage of the payment hash *)
       valid_taker_tag keymode st && N.eqb pre 5 && N.eqb hmode 0
@@ -140,9 +149,11 @@ Definition spec_accept (chain flagset hmode keymode : N) (sq txver : Z) (s : lis
   | [st; sm; x] =>              (* (b) taker and maker signatures *)
       valid_taker_tag keymode st && valid_maker_tag' keymode sm && not_maker_sig flagset keymode x
   | [sm] =>                     (* (c) maker signature after the CSV of the property text *)
-      valid_maker_tag' keymode sm && commits_csv (text_csv chain) sq txver
+      valid_maker_tag' keymode sm && commits_csv csv sq txver
   | _ => false
   end.
+
+Definition spec_accept (chain : N) := spec_accept_csv (text_csv chain).
 
 Fixpoint script_csv (ops : list op) : option Z :=
   match ops with
@@ -170,4 +181,9 @@ Definition c02_monitor (c : c02_case) : bool :=
       end
   | CEngine chain fs hm km sq ver maxlen obs =>
       forallb (fun s => Bool.eqb (spec_accept chain fs hm km sq ver s) (stack_mem s obs)) (all_stacks maxlen)
+  | CEngineCsv csv fs sq ver maxlen obs =>
+      (* the three shapes, for every csv the general theorem covers (1 <= csv < 2^16) *)
+      if (1 <=? csv) && (csv <? 65536) then
+        forallb (fun s => Bool.eqb (spec_accept_csv csv fs 0 0 sq ver s) (stack_mem s obs)) (all_stacks maxlen)
+      else true
   end.
